@@ -586,6 +586,15 @@ class Sym:
                         spread.append((k, v_))
                 kws = tuple(spread)
             f = rec(e.func)
+            # f(*[a, *(g(p) for p in ps)]): the leading single items of a list built on the spot are positional arguments
+            if pos and pos[-1][:2] == ("uop", "*") and pos[-1][2][:1] == ("acc",) and pos[-1][2][1] in ("list", "gen"):
+                contribs = list(pos[-1][2][2])
+                lead = []
+                while contribs and contribs[0][0] == "one" and not contribs[0][1] and not any(x[:1] in (("elem",), ("index",), ("key",), ("val",))
+                                                                                                 for x in subterms(contribs[0][2])):
+                    lead.append(contribs.pop(0)[2])
+                if lead:
+                    pos = tuple(pos[:-1]) + tuple(lead) + ((("uop", "*", ("acc", "gen", tuple(contribs))),) if contribs else ())
             # getattr(x, "name"[, default]) with a literal name is x.name (or the default)
             if f == ("glob", "getattr") and len(pos) in (2, 3) and not kws and pos[1][:1] == ("const",) \
                     and pos[1][1][:1] in ("'", '"') and "getattr" not in self.locals:
